@@ -3,7 +3,7 @@
    (superseded and stale rules), crashes/stops at any point (volatile state lost), arbitrary changes of an LMDB
    while its syncer is down (emptied, edited), restarts under the same name, failing storage calls — in any
    interleaving, any number of instances. Sweeper disabled (the property excepts markers past retention). *)
-From LS Require Import Base.Bytes Merge.Version Merge.Order Fleet.Model Fleet.Crash Fleet.CrashProofs.
+From LS Require Import Base.Bytes Merge.Version Merge.Order Fleet.Model Fleet.Crash Fleet.CrashProofs Corr.Run_crash Fleet.CrashReplay.
 Open Scope N_scope.
 
 (* after any step of any reachable state, every snapshot EVER uploaded — still stored or long deleted — is
@@ -55,3 +55,21 @@ Proof.
     + apply (c_tamper nat Nat.eq_dec _ 0%nat (fun _ => None)). reflexivity.
   - split; reflexivity.
 Qed.
+
+(* THE TIE to the correspondence check: the event logs of the real Syncers (starts, stops, merges, uploads, cleaner
+   deletions) are replayed by an executable, content-free transcription of the guards (Corr/Run_crash.v); every
+   log that replay ACCEPTS is a path of the proven model from its initial state — so the invariant behind the
+   theorems above holds of exactly the histories the implementation is compared on, and a log the implementation
+   can produce but the model cannot (an upload while waiting for the own snapshot, a deletion no rule allows)
+   is rejected by the replay *)
+Theorem C05_accepted_log_is_model_path : forall (K : Type) (K_eq_dec : forall a b : K, {a = b} + {a <> b}) l,
+  ccheck (mkCC l) = true ->
+  exists g s, gfinal g0 l = Some g /\ creach K K_eq_dec s /\ R K g s.
+Proof. exact accepted_log_is_model_path. Qed.
+Print Assumptions C05_accepted_log_is_model_path.
+
+(* non-vacuity: a log with a restart, an upload that had to wait for the own snapshot, and a deletion is accepted *)
+Example C05_replay_example :
+  ccheck (mkCC [EStart 0; EUpload 0; EStop 0; EStart 0; EMerge 0 0; EUpload 0; EDelete 0 0]) = true /\
+  ccheck (mkCC [EStart 0; EUpload 0; EStop 0; EStart 0; EUpload 0]) = false.
+Proof. split; vm_compute; reflexivity. Qed.
